@@ -6,8 +6,8 @@ from ..runner import Part
 PROPERTY = 'C04'
 LEVEL = 'exploration'
 RULE = ('every sequence of <=k operations over {shell, exec_out, streaming_shell, root, list, stat, pull, push} on one connection (ids and leftover state chain) x '
-        'remote-id families {small, 32-bit extremes, reused id} x maxdata {4096, 64 KiB, 1 MiB} x chunkings {one, two, byte-wise} x CLSE {after ack, eager} x '
-        'push size {single, multi WRTE} x twins, device wire order enumerated; oracle: the stream monitor of mc/monitor.py (OPEN shape and fresh id, '
+        'remote-id families {small, 32-bit extremes, reused id, mirrored ids} x maxdata {4096, 64 KiB, 1 MiB} x chunkings {one, two, byte-wise} x CLSE {after ack, eager} x '
+        'push size {single, multi WRTE} x twins, device wire order enumerated; a slow device (late WRTE/CLSE against timeout_s, late OKAY inside a multi-WRTE push); oracle: the stream monitor of mc/monitor.py (OPEN shape and fresh id, '
         '(local, announced remote) on every later packet, host OKAYs == device WRTEs, stop-and-wait, exactly one CLSE, nothing after it), the model stalling '
         'on a missing OKAY, and each result equal to the model\'s ground truth; non-trivial = sequence non-empty; distinct = distinct parameter tuple')
 ASSUMPTIONS = ['adbsim is a faithful adbd model', 'completion rules are asserted on operations that succeed (the quantifier of C04)']
@@ -119,6 +119,60 @@ def run_abandoned(params, ch):
         s.finish()
 
 
+def run_slow(params, ch):
+    """A slow but legal device on an advancing clock.  kind 'shell': every WRTE / the CLSE reaches the wire late and the caller gave a
+    total timeout_s; kind 'push': the OKAY of the n-th host WRTE is late.  The rules are those of the property, whatever the call
+    returns: a device CLSE that the host has
+    read is answered with exactly one CLSE, and no host WRTE leaves before the previous one was acknowledged."""
+    from .. import monitor
+    twin = params['twin']
+    if params['kind'] == 'shell':
+        cfg = scen.ops_cfg(params['chunking'], 4096, params['clse'], 'small')
+        cfg['wrte_delay'] = params['wd']
+        cfg['clse_delay'] = params['cd']
+        kw = {'decode': False, 'read_timeout_s': 1.0, 'timeout_s': params['total']}
+        s = Session(ch, cfg, twin=twin)
+        try:
+            s.op(('connect',))
+            r = s.op((params['api'], 'c', kw))
+            mon, streams = monitor.check(s.env.events, completed=(r[0] == 'ok'))
+            viol = [{'msg': 'stream monitor %s: %s' % m} for m in mon] + [{'msg': '%s: %s' % i} for i in s.env.issues]
+            st = streams[0] if streams else None
+            want = b''.join(cfg['shell'][b'shell:c' if params['api'] == 'shell' else b'exec:c'])
+            if r[0] == 'ok' and r[1] != want:
+                viol.append({'msg': '%s returned %r, device wrote %r' % (params['api'], r[1], want)})
+            if r[0] == 'exc' and r[1] not in ('AdbTimeoutError', 'TcpTimeoutException'):
+                viol.append({'msg': '%s ended with %r' % (params['api'], r)})
+            if st is None:
+                viol.append({'msg': 'no stream was opened'})
+            elif st.d_clse and st.h_clse != 1:
+                viol.append({'msg': 'the host read the device\'s CLSE but sent %d CLSE packets on that stream (call ended with %r; slow device %r)' % (st.h_clse, r[:2], params)})
+            return {'outcome': (r[:2], st.h_okay if st else None, st.d_clse if st else None, st.h_clse if st else None), 'viol': viol, 'nontrivial': tuple(sorted((k, str(v)) for k, v in params.items())),
+                    'sample': dict(params, result=r[:2]), 'trans': len(s.env.events)}
+        finally:
+            s.finish()
+    cfg = scen.ops_cfg('one', 4096, 'after-ack', 'small')
+    cfg['okay_delay'] = {'nth': params['nth'], 'delay': params['delay']}
+    s = Session(ch, cfg, twin=twin)
+    try:
+        s.op(('connect',))
+        data = scen.push_data(params['size'])
+        kw = {'mtime': 7, 'read_timeout_s': 1.0}
+        if params.get('cb'):
+            kw['cb'] = params['cb']
+        r = s.op(('push', ('bytes', data), '/g', kw))
+        viol = oracle.base_viol(s, completed=(r[0] == 'ok'))
+        if r[0] == 'ok':
+            last = s.env.fs.sends[-1] if s.env.fs.sends else None
+            if not last or last[3] != data:
+                viol.append({'msg': 'push returned normally but the device holds %r' % (last and len(last[3]),)})
+        nw = sum(1 for w, p in s.env.events if w == 'H' and p.cmd == b'WRTE')
+        return {'outcome': (r[:2], nw), 'viol': viol, 'nontrivial': tuple(sorted((k, str(v)) for k, v in params.items())),
+                'sample': dict(params, result=r[:2], host_wrtes=nw), 'trans': len(s.env.events)}
+    finally:
+        s.finish()
+
+
 def run_interleaved(params, ch):
     """Two live streams on one thread: a suspended streaming_shell whose packets get parked while another operation runs."""
     from . import c01
@@ -139,7 +193,7 @@ def parts(tier):
     k = 2 if tier == 'quick' else 3
     sc = []
     for ops in seqs(k):
-        for fam in ('small', 'extreme', 'same'):
+        for fam in ('small', 'extreme', 'same', 'mirror'):
             for md in (4096, 65536, 1024 * 1024):
                 for chk in ('one', 'two', 'bytes'):
                     for clse in ('after-ack', 'eager'):
@@ -166,5 +220,10 @@ def parts(tier):
                  bound='%d cases x all wire orders' % len(sc5))
     sc6 = [{'twin': t, 'k': k, 'clse': c, 'family': f} for t in ('sync', 'async') for k in (1, 2, 5) for c in ('after-ack', 'eager') for f in ('small', 'extreme')]
     aband = Part('abandoned-generator', sc6, run_abandoned, {'dev-order': None}, what='streaming_shell abandoned after k items: delivered WRTEs == host OKAYs', bound='%d cases' % len(sc6), min_outcomes=1)
-    return [early, okord, inflight, inter, aband, Part('op-sequences', sc, run_seq, {'dev-order': None}, what='operation sequences of length <=%d x device parameters' % k,
+    sc7 = [{'kind': 'shell', 'api': api, 'twin': t, 'chunking': chk, 'clse': c, 'wd': wd, 'cd': cd, 'total': tot} for t in ('sync', 'async') for chk in ('one', 'two', 'bytes') for c in ('after-ack', 'eager')
+           for wd in (0.0, 0.3, 0.6) for cd in (0.0, 0.3, 0.6) for tot in (None, 0.2, 0.5, 0.8, 1.4, 5.0) for api in ('shell', 'exec_out') if wd or cd]
+    sc7 += [{'kind': 'push', 'twin': t, 'size': z, 'nth': n, 'delay': d, 'cb': cb} for t in ('sync', 'async') for z in (5000, 9000) for n in (1, 2, 3, 4) for d in (0.5, 1.5, 30.0) for cb in (None, 'count', 'raise')]
+    slow = Part('slow-device', sc7, run_slow, {'dev-order': None}, what='a slow but legal device on an advancing clock: late WRTEs / CLSE against the total timeout_s of shell and exec_out, and a late OKAY for the n-th WRTE of a '
+                'multi-WRTE push (read timeout 1 s)', bound='%d cases' % len(sc7))
+    return [early, okord, inflight, inter, aband, slow, Part('op-sequences', sc, run_seq, {'dev-order': None}, what='operation sequences of length <=%d x device parameters' % k,
                       bound='length <=%d%s' % (k, '; length-3 sequences at maxdata 4096 only' if k == 3 else ''))]
